@@ -108,6 +108,12 @@ fn c02_cases(cx: &Ctx, p: &'static Params) -> Vec<VCase> {
             out.extend(forge::honest_cases(p, &skc, &hpk, *mode, msg, ctx, if primary { 2 } else { 0 }));
         }
     }
+    // D7c: response vectors that drive one output of the subject's forward transform to its largest integer value (E8,
+    // searched on the tree under test through the hooks); FIPS 204 accepts the forgeries
+    #[cfg(feature = "kernels")]
+    if let Ok(ws) = crate::checks_e::growth_z(p, cx.tier) {
+        out.extend(crate::checks_e::growth_vcases(p, &ws, &pk0, &pk0b));
+    }
     // D4b: commitment hashes with the longest SampleInBall rejection runs found by exhaustive search (committed witnesses)
     out.extend(forge::sib_long_cases(p, &pk0, &pk0b).0);
     // D3b: a single hint bit placed on a coefficient of w'approx that sits on a Decompose / UseHint corner
@@ -481,11 +487,11 @@ pub fn c06(cx: &Ctx, rep: &mut Report) {
                     mimic.push(Triple { mode: Mode::Pure, ctx: tail.clone(), msg: vec![] });
                     mimic.push(Triple { mode: Mode::Pure, ctx: [&c[..], &refmodel::oid(ph)[..]].concat(), msg: refmodel::prehash(ph, &m0) });
                     // other pre-hash functions given the digest of this one as message
+                    // every pre-hash function (this one included) given the digest PH(M0) itself as the message
                     for ph2 in [Mode::Sha256, Mode::Sha512, Mode::Shake128] {
-                        if ph2 != ph {
-                            mimic.push(Triple { mode: ph2, ctx: c.clone(), msg: refmodel::prehash(ph, &m0) });
-                        }
+                        mimic.push(Triple { mode: ph2, ctx: c.clone(), msg: refmodel::prehash(ph, &m0) });
                     }
+                    mimic.push(Triple { mode: Mode::Pure, ctx: c.clone(), msg: refmodel::prehash(ph, &m0) });
                 }
             }
         }
